@@ -456,6 +456,29 @@ def check_atomic_write(ctx: Ctx, oid: str) -> None:
                              f"{cname}.write is not atomic and BaseGateway._send takes no lock: frames of concurrently sending threads can interleave on the wire "
                              "(sock.sendall of a large frame is many send() calls)")
         ob.require(len(ob.sites) >= 3, "3 IO.write implementors expected")
+        # "single buffered write" holds only if the pipe file objects are buffered (io.BufferedWriter holds a lock across the
+        # whole write and loops over partial writes; a raw FileIO does neither): no construction site may ask for bufsize 0
+        nctor = 0
+        for fi in repo.scan_funcs():
+            for c in repo.calls_in(fi):
+                nm = callee_attr(c) or (c.func.id if isinstance(c.func, ast.Name) else "")
+                if nm not in ("Popen", "fdopen"):
+                    continue
+                bs = None
+                for k in c.keywords:
+                    if k.arg in ("bufsize", "buffering"):
+                        bs = repo.fold_in(k.value, fi)
+                pos = 1 if nm == "Popen" else 2
+                if bs is None and len(c.args) > pos:
+                    bs = repo.fold_in(c.args[pos], fi)
+                if nm == "Popen" and not any(k.arg in ("stdin", "stdout") for k in c.keywords):
+                    continue  # not a protocol pipe
+                nctor += 1
+                ob.site(fi, c, f"{nm}(...) gives buffered file objects", bufsize=repr(bs))
+                if bs == 0 and not isinstance(bs, bool):
+                    ob.violation(fi, c, f"{nm}(..., bufsize=0) makes the protocol pipe a raw file: a frame larger than the free pipe space is written in pieces, "
+                                        "without a lock, and frames of concurrently sending threads interleave", construct=f"{nm} bufsize=0")
+        ob.require(nctor >= 3, f"{nctor} pipe construction sites (floor 3)")
 
 
 
@@ -560,3 +583,7 @@ def check(ctx: Ctx) -> None:
         ob.site(pw, snd[0] if snd else pw.node, "ProxyIO.write sends its argument unmodified as one item")
         if len(snd) != 1 or unparse(snd[0].args[0]) not in pw.params():
             ob.violation(pw, pw.node, "ProxyIO.write does not send exactly its argument")
+
+    # the proxied path: frames that arrive split or coalesced into channel items are re-assembled by ChannelFileRead (ProxyIO.read)
+    from .C19 import check_stream_reassembly
+    check_stream_reassembly(ctx, "C08.f")
